@@ -61,8 +61,9 @@ func hookBlock(p string) {
 
 // Clock is the simulator-owned time source (server clock in microseconds, wall clock in ns).
 type Clock struct {
-	ServerUs int64
-	WallNs   int64
+	ServerUs   int64
+	ServerTick int64 // added to ServerUs after every read of the server clock
+	WallNs     int64
 	// Wall clock behaviour: every read first advances by WallTick() (>= 0).
 	WallTick func() int64
 	reads    int
